@@ -243,7 +243,7 @@ fn judge_knn<F: Float>(
     for j in 0..want {
         let (a, b) = (gs[j], q.ds[j]);
         let diff = (a - b).abs();
-        let tol = if kidx == BALL { q.tol_ball(a.max(b)) } else { q.tol_rel(a.max(b)) };
+        let tol = q.tol_rel(a.max(b));
         if !(diff <= tol) {
             return Err(("C07/knn/not-the-nearest".into(),
                 json!({"kind":kname,"k":k,"rank":j,"returned_dist":a,"true_dist":b,"tol":tol,
@@ -273,7 +273,7 @@ fn judge_range<F: Float>(
     }
     for i in 0..q.n() {
         let d = q.d[i];
-        let tol_in = if kidx == BALL { q.tol_ball(d.max(r)) } else { q.tol_rel(d.max(r)) };
+        let tol_in = q.tol_rel(d.max(r));
         let tol_out = q.tol_rel(d.max(r));
         if d < r - tol_in && !present[i] {
             return Err(("C07/range/missing-inside".into(),
@@ -324,12 +324,20 @@ fn judge_agreement<F: Float>(q: &Query<F>, r: f64, sets: &[Option<Vec<usize>>; 3
         }
         let lacking = diff(lin, ball);
         for i in &lacking {
-            if (q.d[*i] - r).abs() > q.tol_ball(q.d[*i].max(r)) {
-                return Err(("C07/range/kinds-disagree".into(), json!({"kinds":"balltree vs linear","radius":r,
-                    "only_linear":lacking,"dist":q.d[*i],"linear":lin,"balltree":ball,"case":q.desc()})));
-            }
             worst = worst.max((q.d[*i] - r).abs() / (eps_of::<F>() * 3.0 * q.dmax.max(r / 3.0)));
             worst_rel = worst_rel.max((q.d[*i] - r).abs() / (eps_of::<F>() * r));
+        }
+        if !lacking.is_empty() {
+            // "the three kinds agree with one another on every query": the ball tree may not drop
+            // points the linear scan returns, however close to the radius they are (its sphere
+            // bound is a rounded quantity; a bound that prunes a sphere holding a point the
+            // point-level test would accept is not a lower bound)
+            let within_ball_floor = lacking.iter().all(|i| (q.d[*i] - r).abs() <= q.tol_ball(q.d[*i].max(r)));
+            let sig = if within_ball_floor { "C07/range/balltree-prunes-points-inside-the-radius" } else { "C07/range/kinds-disagree" };
+            return Err((sig.into(), json!({"kinds":"balltree vs linear","radius":r,
+                "only_linear":lacking,"dists_only_linear": lacking.iter().map(|i| q.d[*i]).collect::<Vec<_>>(),
+                "below_radius_in_units_of_eps_r": worst_rel,
+                "linear":lin,"balltree":ball,"case":q.desc()})));
         }
         losses = lacking.len() as u64;
         if losses > 0 && std::env::var("C07_DEBUG_LOSS").is_ok() {
@@ -682,6 +690,8 @@ enum Layout {
     F,
     RowStrided,
     ColStrided,
+    /// rows stored back to front: one contiguous buffer, contiguous rows, negative row stride
+    RowsReversed,
 }
 
 fn with_layout<F: Float, R>(
@@ -722,6 +732,10 @@ fn with_layout<F: Float, R>(
                 }
             }
             f(big.slice(s![.., ..;2]))
+        }
+        Layout::RowsReversed => {
+            let back = Array2::<F>::from_shape_fn((n, d), |(i, j)| F::cast(proto[[n - 1 - i, j]]));
+            f(back.slice(s![..;-1, ..]))
         }
     }
 }
@@ -817,7 +831,7 @@ fn cloud_spec(c: &mut Case) -> CloudSpec {
         40..=84 => crate::gen::log_uniform(rng, 13.0, 150.0) as usize,
         _ => crate::gen::log_uniform(rng, 150.0, nmax) as usize,
     };
-    let layout = *[0usize, 0, 0, 1, 2, 3].choose(rng).unwrap(); // C is drawn three times as often
+    let layout = *[0usize, 0, 0, 1, 2, 3, 4].choose(rng).unwrap(); // C is drawn three times as often
     let (offset, scale) = if f32_ {
         (
             *[0.0, 0.0, 0.0, 1e3, -1e4, 3e5].choose(rng).unwrap(),
@@ -840,7 +854,8 @@ fn cloud_case<F: Float>(c: &mut Case, sp: &CloudSpec) -> Outcome {
         0 => Layout::C,
         1 => Layout::F,
         2 => Layout::RowStrided,
-        _ => Layout::ColStrided,
+        3 => Layout::ColStrided,
+        _ => Layout::RowsReversed,
     };
     let leafs: Vec<Option<usize>> = if sp.n <= 60 {
         vec![Some(1), Some(2), Some(3), Some(16), None]
